@@ -30,6 +30,10 @@ CMP = {
     "ge": operator.ge,
 }
 BIN = {"add": lambda a, b: a + b, "sub": lambda a, b: a - b, "mul": lambda a, b: a * b, "fdiv": lambda a, b: a // b}
+# functions that exist in one engine kind only (registered in Engine.functions by dbx.make_engines):
+# f(x) = 2x + 1.  Unlike the operator-named restricted functions these really cannot be evaluated
+# by the other engine, so a tree that wrongly accepts them fails at execution.
+ONLY = {"only_it": "vm_only_it", "only_sql": "vm_only_sql"}
 BIN_METHOD = {"add": "__add__", "sub": "__sub__", "mul": "__mul__", "fdiv": "__floordiv__"}
 
 
@@ -45,6 +49,8 @@ def ev(e, row):
         return BIN[k](ev(e[1], row), ev(e[2], row))
     if k == "rfn":
         args = [ev(a, row) for a in e[2]]
+        if e[1] in ONLY:
+            return args[0] * 2 + 1
         return -args[0] if e[1] == "neg" else BIN[e[1]](*args)
     raise AssertionError(e)
 
@@ -140,7 +146,7 @@ def elib(e):
     if k == "neg":
         return elib(e[1]).method("__neg__")
     if k == "rfn":
-        name = "__neg__" if e[1] == "neg" else BIN_METHOD[e[1]]
+        name = ONLY[e[1]] if e[1] in ONLY else ("__neg__" if e[1] == "neg" else BIN_METHOD[e[1]])
         return ColumnExpression.function(
             name, *[elib(a) for a in e[2]], supporting_engine_types=_engine_types(e[3])
         )
